@@ -3,6 +3,7 @@ package c01
 
 import (
 	"fmt"
+	"github.com/streamingfast/substreams/pipeline/exec"
 	"os"
 	"path/filepath"
 	"strings"
@@ -85,7 +86,7 @@ var programs = map[string]func() *progs.Prog{
 	"index2":          func() *progs.Prog { return progs.Index2() },
 }
 
-var quickPrograms = []string{"storemap-2-3", "twostages-1-4-6", "samestage-1-7-3", "index", "clocksparse-2", "clocksparse2-2", "policies", "emptymap-1", "chain-0", "index2"}
+var quickPrograms = []string{"storemap-2-3", "storemap-7-4", "twostages-1-4-6", "samestage-1-7-3", "index", "clocksparse-2", "clocksparse2-2", "policies", "emptymap-1", "chain-0", "index2"}
 
 var runs, jobs int64
 
@@ -123,6 +124,9 @@ func Eval(c Case) (*core.Fail, bool) {
 		hp := p
 		if h.Mutant != "" {
 			hp = mutate(p, h.Mutant)
+			if _, err := exec.NewOutputModuleGraph(hp.Output, true, hp.Modules, 0); err != nil {
+				return nil, false // the one-field mutation does not give a valid graph for this program: no such history
+			}
 		}
 		r := runReq(hp, c.Seg, h, dir)
 		if r.Err != nil {
@@ -242,15 +246,15 @@ func Run(ctx *core.Ctx) int {
 					nil,
 					{{Prod: true, Start: 9, Stop: 9 + seg, Final: -1}},                                                            // same module, other range
 					{{Prod: false, Start: 10, Stop: 12, Final: -1}, {Prod: true, Start: 9, Stop: 4 * seg, Final: 3 * int64(seg)}}, // dev then prod
-					{{Prod: true, Start: 9, Stop: 3 * seg, Final: -1, Mutant: "store-body"}},                                      // a mutated ancestor ran before on the same cache
-					{{Prod: true, Start: 9, Stop: 3 * seg, Final: -1, Mutant: "store-init"}},
+					{{Prod: true, Start: 9, Stop: 9 + 2*seg, Final: -1, Mutant: "store-body"}},                                    // a mutated ancestor ran before on the same cache
+					{{Prod: true, Start: 9, Stop: 9 + 2*seg, Final: -1, Mutant: "store-init"}},
 				}
 				if !ctx.Thorough() {
 					histories = histories[:4]
 				}
 				// an earlier request over a shorter range, then a class of its files evicted from the cache
 				for _, ev := range []string{"last-snapshots", "snapshots", "outputs"} {
-					histories = append(histories, []Req{{Prod: true, Start: 9, Stop: 3 * seg, Final: -1, Evict: ev}})
+					histories = append(histories, []Req{{Prod: true, Start: 9, Stop: 9 + 2*seg, Final: -1, Evict: ev}})
 				}
 				// another output module of the same graph ran before on the same cache
 				for _, o := range programs[name]().Outputs {
